@@ -3,6 +3,7 @@
 R04-a skip guard dominates the attribute rewrite of every protected node kind · R04-b spelling table of is_skip
 R04-c whole-file opt-outs precede formatting · R04-d name scoping (skip macros, skip attributes, skip_context save/restore)
 """
+import re
 from absint import explore, vkey, variant_name, TooManyPaths
 from common import short, bool_branches, edge_dominates, match_name, op_local
 
@@ -201,6 +202,7 @@ def run(ctx):
     every_attribute_contributes(ctx, "R04-i")
     module_file_attrs_scope(ctx, "R04-j")
     reordering_spares_skipped_items(ctx, "R04-k")
+    generated_marker_is_sought_in_the_whole_file(ctx, "R04-l")
 
 
 def spelling(ctx, rid):
@@ -402,11 +404,12 @@ def scoping(ctx, rid):
         r.undecidable(rid, "<Attribute as Rewrite>::rewrite_result not found")
     else:
         PURE = ("::snippet", "is_doc_comment", "to_owned", "::ident", "Option::<T>::map", "unwrap_or", "contains_comment",
-                "SkipNameContext::skip", "Symbol::as_str", "Ident::as_str")
+                "SkipNameContext::skip", "Symbol::as_str", "Ident::as_str", "Option::<T>::is_some_and")
+        CARRIERS = ("Option::<T>::map", "Option::<T>::is_some_and", "Option::<T>::map_or")
         # which Option::map carries the skip-attributes closure?
         guard_closure = None
         for c in ar.calls():
-            if c.name.endswith("Option::<T>::map"):
+            if any(c.name.endswith(x_) for x_ in CARRIERS):
                 for x in c.refs:
                     f2 = p.fns.get(x)
                     if f2 is None:
@@ -443,6 +446,9 @@ def scoping(ctx, rid):
                         doc = v
                     if "unwrap_or(" in k and "Option::<T>::map(" in k and "::ident(arg1)" in k and isinstance(v, bool):
                         guard = v
+                    if ("Option::<T>::is_some_and(" in k or ("Option::<T>::map_or(" in k and ",false," in k)) \
+                            and "::ident(arg1)" in k and isinstance(v, bool):
+                        guard = v       # `ident().is_some_and(|s| skip(..))`: the same test, spelled with the newer adaptor
                     if "SkipNameContext::skip(" in k and "attributes" in k and isinstance(v, bool):
                         guard = v
                     if k.startswith("discr(") and "::ident(arg1)" in k and variant_name(v) == "None":
@@ -865,3 +871,47 @@ def reordering_spares_skipped_items(ctx, rid):
         r.violation(rid, "skip::is_skip_attr is used as a skip test by %s" % sorted(set(callers) - {"visitor::FmtVisitor::<'a>::is_unknown_rustfmt_attr"}),
                     "it does not look inside cfg_attr and does not know `rustfmt_skip`: items marked that way are not recognised",
                     ["src/skip.rs"])
+
+
+def generated_marker_is_sought_in_the_whole_file(ctx, rid):
+    """R04-l: the text searched for the @generated marker is the file's whole text"""
+    p, r = ctx.p, ctx.r
+    r.rule(rid, "whole-file opt-out by marker: at every call of formatting::generated::is_generated_file the text argument is the "
+                "complete text of the file the module lives in — it derives from a read of `SourceFile::src` (directly or in a "
+                "workspace helper whose result it is) and from no span-limited snippet (span_to_snippet / snippet / "
+                "SnippetProvider). The span of an out-of-line module starts at its first token: the header comment that "
+                "carries `@generated` lies before it, so a snippet of the span never contains the marker and the generated "
+                "file is rewritten")
+    sites = [c for c in p.all_calls() if c.name.endswith("generated::is_generated_file") and c.fn.crate == "rustfmt_nightly"]
+    n = 0
+    for c in sites:
+        f = c.fn
+        n += 1
+        if not c.args or c.args[0][0] == "k":
+            r.violation(rid, "%s: is_generated_file on a constant" % short(f.id), "", [c.loc()])
+            continue
+        seen_src, snippets = False, []
+        work, done = [(f, f.derived_from(c.args[0][1][0]), 0)], set()
+        while work:
+            g, d, depth = work.pop()
+            if any(a and a.endswith("rustc_span::SourceFile") and str(fl) == "src" for (a, v, fl) in d["fields"]):
+                seen_src = True
+            for cc in d["calls"]:
+                last = short(cc.name)
+                if re.search(r"span_to_snippet|snippet_provider|SnippetProvider|::snippet\b|get_original_snippet", cc.name):
+                    snippets.append(last)
+                h = p.fns.get(cc.name)
+                if h is not None and h.id not in done and depth < 2:
+                    done.add(h.id)
+                    # a helper whose result is handed on: everything its return value derives from
+                    hd = h.derived_from(0)
+                    work.append((h, hd, depth + 1))
+        ok = seen_src and not snippets
+        r.instance(rid, "%s: text handed to is_generated_file" % short(f.root or f.id), "ok" if ok else "violation", c.loc(),
+                   "derives from SourceFile::src=%s, span-limited sources=%s" % (seen_src, sorted(set(snippets))))
+        if not ok:
+            r.violation(rid, "%s: the @generated marker is not sought in the whole text of the file" % short(f.root or f.id),
+                        "the text handed to is_generated_file %s: the header comment of an out-of-line module file lies outside "
+                        "the module's span" % ("comes from a span-limited snippet (%s)" % ", ".join(sorted(set(snippets)))
+                                               if snippets else "does not derive from SourceFile::src"), [c.loc()])
+    r.floor(rid, n, 1, "call sites of is_generated_file")
